@@ -128,7 +128,7 @@ static int in_live_block(u8* a) {
    allocate_long_table's zero fill of table entries 3..63 (LLVM loop idiom): typed model, clipped to the backed entries */
 #undef memset
 void* vp_memset(void* d, int c, size_t n) {
-  if (c == 0 && n == 61 * 8) { TENT* p = (TENT*)d; for (unsigned i = 0; i < 61; i++) if (i < TABW - 3) p[i].f0.f0 = 0; }
+  if (c == 0 && n == 61 * 8) { TENT* p = (TENT*)d; for (unsigned i = 0; i < 61 && i < TABW - 3; i++) p[i].f0.f0 = 0; }
   else { VP_ASSERT(n <= 64, "HARNESS: unexpected memset"); u8* p = (u8*)d; for (unsigned i = 0; i < n; i++) p[i] = (u8)c; }
   return d;
 }
@@ -181,6 +181,9 @@ static unsigned others_running(u32 tid) {
 }
 #endif
 static u64 arg_of(int kind) {
+#ifdef MIND
+  if (kind == 0) return vp_nd_range(MIND, MAXD);
+#endif
   if (kind == 0) return vp_nd_range(0, MAXD);
   if (kind == 2) return vp_nd_range(PRE > 1 ? PRE - 1 : 0, PRE + MAXD);
   return 0;
@@ -274,7 +277,7 @@ int main(void) {
     else VP_ASSERT(owners == 0, "element of a returned range constructed by another call");
     VP_ASSERT(vp_val(&vec, i) == 100 + ctor, "element does not hold the requested value");
   }
-#ifdef SEQ
+#if defined(SEQ) && !defined(NODESTROY)
   /* the vector stays destructible: every element destroyed, every segment and table released exactly once */
   destroying = 1; vp_destroy(&vec);
   VP_ASSERT(n_destroyed == size, "destructor did not run once per element");
